@@ -79,17 +79,31 @@ PROBES = [
 # Known findings (known/C10.txt).  Narrow syntactic exclusions on the generated INPUT / call:
 # KA: M.Bytes hands the caller's slice to the minifiers, which edit it in place (HTML lower-cases tag and attribute names, XML/SVG
 #     collapse white space) before a late error; Bytes then returns that edited slice as "the original".  Only calls that can fail are
-#     affected: XML/SVG fail only on a NUL byte, HTML only through an embedded resource or a NUL byte.  Generators do not emit Bytes
-#     calls for html/xml/svg inputs that can make the minifier fail (the String and Minify entry points are still called on them).
+#     affected: XML/SVG fail only on a NUL byte, HTML only through an embedded resource or a NUL byte, JSON (numbers are rewritten
+#     in place: 1.50e+3 -> 1500e+3) on any text that is not JSON.  Generators do not emit Bytes calls for html/xml/svg/json inputs that
+#     can make the minifier fail (the String and Minify entry points are still called on them; Bytes on js/css stays fully checked).
 KA_CAN_FAIL_HTML = re.compile(rb'\x00|<script|<svg|<math|\son[a-z]+\s*=|<[^>]*\bon[a-z]+\s*=', re.I)
 # KB: the JS minifier needs time quadratic in the number of var statements of one scope (js/vars.go hoistVars; the 10000 cut-off
 #     only limits the length of a single declaration list).  Generators emit at most 3000 var statements per scope.
 KB_VAR = re.compile(rb'\bvar\b')
 
 
+def json_ok(data):
+    """strict JSON per Python's json module (independent of the code under test); used only to decide KA's exclusion"""
+    try:
+        def bad(x):
+            raise ValueError(x)
+        json.loads(data.decode('utf-8'), parse_constant=bad)
+        return b'\x00' not in data
+    except (ValueError, RecursionError):
+        return False
+
+
 def excluded(api, lang, data):
     tags = []
     if api == 'Bytes':
+        if lang == 'json' and not json_ok(data):
+            tags.append('KA')
         if lang in ('xml', 'svg') and b'\x00' in data:
             tags.append('KA')
         if lang == 'html' and KA_CAN_FAIL_HTML.search(data):
@@ -290,6 +304,7 @@ def run(ctx):
         raise vlib.Infra('spec/TotalitySeeds.tla is stale: run python3 tools/props/c10.py --seeds')
     # ---- (MC)
     t0 = time.time()
+    vlib._speccopy(ctx)           # before the threads start (the copy is not re-entrant)
     with ThreadPoolExecutor(max_workers=3) as ex:
         f_mc = ex.submit(vlib.tlc_mc, ctx, 'Totality', 'Totality_mc.cfg' if quick else 'Totality_mcfull.cfg', 4, timeout=2400, heap='4g')
         gen_dump = ctx.path('gen', 'totality')
@@ -404,27 +419,39 @@ def run(ctx):
     why = collections.defaultdict(list)
     for pos, w in rejects:
         why[pos].append(w)
-    # every rejected call is re-run alone in a fresh process (budget rejections up to three times: the cheapest run counts)
+    # every rejected call is re-run in a fresh driver process, one call at a time, and re-validated; a budget rejection must
+    # repeat in up to three fresh runs unless the call is clearly (2x) over the CPU budget
     bad = sorted(why)
     reproduced = 0
-    if len(bad) > 500:
-        raise vlib.Infra('%d rejected calls' % len(bad))
-    for pos in bad:
+    if len(bad) > 1000:
+        vlib.log('c10: %d rejected calls; only the first 1000 are re-run' % len(bad))
+        ctx.coverage['rejections_not_rerun'] = len(bad) - 1000
+    pending = list(bad[:1000])
+    final = {}
+    for attempt in range(3):
+        if not pending:
+            break
+        sub = [dict(cs.cases[pos], id=k) for k, pos in enumerate(pending)]
+        ev1 = run_shard(ctx, exe, sub, 'rerun-%d' % attempt)
+        a1, r1 = vlib.tlc_trace(ctx, 'C10Trace', 'C10Trace.cfg', [to_line(e) for e in ev1])
+        w1 = collections.defaultdict(list)
+        for k, w in r1:
+            w1[k].append(w)
+        nxt = []
+        for k, pos in enumerate(pending):
+            if k not in w1:
+                final.pop(pos, None)          # a fresh run satisfies the relation: not reproduced
+                continue
+            final[pos] = (ev1[k], w1[k])
+            if w1[k] == ['WithinBudget'] and ev1[k]['cpu_us'] <= 2 * (250000 + 5 * ev1[k]['n']):
+                nxt.append(pos)               # marginal budget rejection: look for a cheaper run
+        pending = nxt
+    for pos in sorted(final):
+        e1, ws = final[pos]
         c = cs.cases[pos]
-        still, e1, w1 = True, None, []
-        for attempt in range(3):
-            e1 = run_shard(ctx, exe, [c], 'rerun-%d-%d' % (pos, attempt))[0]
-            a1, r1 = vlib.tlc_trace(ctx, 'C10Trace', 'C10Trace.cfg', [to_line(e1)])
-            w1 = [w for _, w in r1]
-            if not r1:
-                still = False
-                break
-            if w1 != ['WithinBudget'] or e1['cpu_us'] > 2 * (250000 + 5 * e1['n']):
-                break       # not a budget rejection, or clearly over the CPU budget: no need to look for a cheaper run
-        if not still:
-            continue
         reproduced += 1
-        res = ctx.report(cs.ident(c), describe(c, e1, w1), dict(case=c if 'file' not in c or c['file'].startswith(vlib.REPO) else None, event={k: v for k, v in e1.items() if k not in ('orig',)}))
+        ctx.report(cs.ident(c), describe(c, e1, ws), dict(case=c if 'file' not in c or c['file'].startswith(vlib.REPO) else None,
+                                                        event={k: v for k, v in e1.items() if k not in ('orig',)}))
         if only_pinned:
             print('PINNED-FAILS %s' % json.dumps(dict(ident=cs.ident(c), key=vlib.case_key(cs.ident(c)))))
     ctx.coverage['rejections'] = len(bad)
